@@ -50,6 +50,12 @@ func genChainWorld(r *common.Rng) *World {
 		} else {
 			m := ModSpec{Name: fmt.Sprintf("s%d", i), Kind: "store", FailAt: -1, Every: 1, Init: init, Policy: "add", VT: "int64"}
 			m.Inputs = []InputSpec{{Kind: "map", Ref: prevMap}}
+			switch r.Intn(3) { // the store itself may read the block (its dependents still do not)
+			case 0:
+				m.Inputs = []InputSpec{{Kind: "source"}}
+			case 1:
+				m.Inputs = append([]InputSpec{{Kind: "source"}}, m.Inputs...)
+			}
 			m.Ops = []OpTmpl{{Kind: "sum", Ord: 1, KeyBase: "cnt", ValMul: 0, ValAdd: 1, Mod: 1}, {Kind: "sum", Ord: 2, KeyBase: "k", KeyMod: 3, ValMul: 1, ValAdd: 0, Mod: uint64(r.Range(1, 2))}}
 			w.Mods = append(w.Mods, m)
 			prevStore = m.Name
@@ -211,6 +217,9 @@ func GenWorld(r *common.Rng) *World {
 					o.KeyMod = uint64(r.Range(2, 3))
 				}
 				m.Ops = append(m.Ops, o)
+			}
+			if m.Policy == "set" && r.Chance(1, 3) { // now and then a block that writes forty keys at once
+				m.Ops = append(m.Ops, OpTmpl{Kind: "burst", Ord: uint64(r.Intn(3)), KeyBase: "kb", ValMul: 1, ValAdd: int64(r.Range(0, 5)), Mod: uint64(r.Range(2, 4)), Rem: uint64(r.Intn(2))})
 			}
 			if r.Chance(1, 3) { // shrink / delete keys now and then
 				m.Ops = append(m.Ops, OpTmpl{Kind: "del", Ord: uint64(r.Intn(3)), KeyBase: []string{"k", "ka", "c"}[r.Intn(3)], Mod: uint64(r.Range(2, 5)), Rem: 1})
